@@ -167,3 +167,28 @@ def shared_abbrev(src, variant):
 
 shared_abbrev('x_gcc_v4.so', 'asz4')
 shared_abbrev('x_gcc_v4.so', 'fmt64')
+
+
+# ---------------------------------------------------------------------------------------------------------------
+# derived__define_file_<src>: the first line program's leading DW_LNE_set_address (11 bytes on a 64-bit target) is
+# replaced by a DW_LNE_define_file of the same length: a program that extends its own file table while it is decoded.
+def define_file(src):
+    from dst.core import elfedit
+    data = open(os.path.join(C, src), 'rb').read()
+    img = elfedit.Image(data)
+    bo = img.raw.bo
+    ls = img.find('.debug_line')
+    line = bytearray(img.content(ls))
+    hl = int.from_bytes(line[6:10], bo)
+    ps = 10 + hl
+    ps = bytes(line).find(b'\x00\x09\x02', ps)
+    assert 0 <= ps - 10 - hl < 8, 'no leading DW_LNE_set_address'
+    line[ps:ps + 11] = b'\x00\x09\x03' + b'abcd\x00' + b'\x01\x02\x03'
+    img.set_content(ls, bytes(line))
+    out = 'derived__define_file_' + src
+    new = img.build()
+    open(os.path.join(C, out), 'wb').write(new)
+    print(out, len(new))
+
+
+define_file('x_gcc_v3.so')
